@@ -496,6 +496,59 @@ func (g *Gen) evalStable(v ssa.Value, li *loopInfo, cells map[*ssa.Alloc]bool, w
 	return Val{}, false
 }
 
+// stableBase: the backing array of a slice value if it cannot change during the loop, even when the slice
+// header itself (offset/len) is recomputed inside the loop by reslicing a stable slice.
+func (g *Gen) stableBase(v ssa.Value, li *loopInfo, cells map[*ssa.Alloc]bool, written map[string]bool, depth int) (Term, bool) {
+	if depth > 6 {
+		return Term{}, false
+	}
+	if val, ok := g.evalStable(v, li, cells, written); ok && len(val.C) >= 1 {
+		return val.C[0], true
+	}
+	switch x := v.(type) {
+	case *ssa.Slice:
+		if _, ok := x.X.Type().Underlying().(*types.Slice); ok {
+			return g.stableBase(x.X, li, cells, written, depth+1)
+		}
+	case *ssa.UnOp:
+		al, ok := x.X.(*ssa.Alloc)
+		if !ok || al.Heap || g.isArrayAlloc(al) {
+			return Term{}, false
+		}
+		var base *Term
+		n := 0
+		for b := range li.blocks {
+			for _, ins := range b.Instrs {
+				st, ok := ins.(*ssa.Store)
+				if !ok || st.Addr != ssa.Value(al) {
+					continue
+				}
+				bt, ok := g.stableBase(st.Val, li, cells, written, depth+1)
+				if !ok {
+					return Term{}, false
+				}
+				if base != nil && base.S != bt.S {
+					return Term{}, false
+				}
+				base = &bt
+				n++
+			}
+		}
+		if base == nil {
+			return Term{}, false
+		}
+		// value on loop entry: either the local is declared inside the loop or it already has this base
+		if !li.blocks[al.Block()] {
+			cs, ok := g.st.cells[al]
+			if !ok || len(cs) == 0 || cs[0].S != base.S {
+				return Term{}, false
+			}
+		}
+		return *base, true
+	}
+	return Term{}, false
+}
+
 // writeEffects: heap effects of one store or call inside a loop. With written==nil only family names matter.
 func (g *Gen) writeEffects(r writeRec, li *loopInfo, cells map[*ssa.Alloc]bool, written map[string]bool) []Effect {
 	if r.store != nil {
@@ -568,6 +621,12 @@ func (g *Gen) storeEffects(addr ssa.Value, li *loopInfo, cells map[*ssa.Alloc]bo
 		case *ssa.IndexAddr:
 			switch xt := a.X.Type().Underlying().(type) {
 			case *types.Slice:
+				if written != nil {
+					if bt, ok := g.stableBase(a.X, li, cells, written, 0); ok {
+						return mk(elemFam(xt.Elem()), true, &bt)
+					}
+					return mk(elemFam(xt.Elem()), true, nil)
+				}
 				return mk(elemFam(xt.Elem()), true, stable(a.X))
 			case *types.Pointer:
 				path = "[]" + path
